@@ -216,8 +216,98 @@ fn hvr_flood(run: &mut Run) {
     run.count(&format!("dtlslive:end_state:flood-hvr:{}", s.state_text()));
 }
 
+// ---------------------------------------------------------------------------------------------
+// `dtlsctx` (COMPARED): the acceptance / reassembly bookkeeping of `process_handshake_payload` observed through the
+// context snapshots the run loop publishes (hook `verif_hooks::decoders::hs_ctx`). Message types are restricted to those
+// whose handler is a no-op for the endpoint's role, so that what is observed is the bookkeeping itself.
+fn ctx_wait(id: usize, after: u64, s: &Session) -> Option<(u64, [u64; 7])> {
+    for _ in 0..200 {
+        if let Some((k, v)) = rustrtc::verif_hooks::decoders::hs_ctx(id) { if k > after { return Some((k, v)); } }
+        s.step(1);
+    }
+    None
+}
+fn gen_ctx_payload(rng: &mut Rng, is_client: bool, expect: u16, pending: &mut Option<(u8, u16, u32, u32)>) -> Vec<u8> {
+    use rustrtc::transports::dtls::handshake::{HandshakeMessage, HandshakeType as T};
+    let types: &[u8] = if is_client { &[0, 1, 13, 15, 16] } else { &[0, 2, 3, 12, 13, 14, 15] };
+    let mut out = bytes::BytesMut::new();
+    let mut exp = expect;
+    for _ in 0..rng.range(1, 4) {
+        let t = *rng.pick(types);
+        let seq = match rng.below(10) { 0 => exp.wrapping_add(1), 1 => exp.wrapping_sub(1), 2 => rng.next() as u16, _ => exp };
+        // continue a pending fragmented message, start one, or send a whole message
+        let (typ, seq, total, off, len) = if let (Some((pt, ps, ptotal, pfilled)), true) = (*pending, rng.chance(3, 4)) {
+            let remaining = ptotal.saturating_sub(pfilled);
+            let len = (match rng.below(6) { 0 => remaining + 1, 1 => 0, _ => rng.range(1, remaining.max(1) as u64) as u32 }).min(400);
+            let off = match rng.below(8) { 0 => pfilled + 1, 1 => 0, _ => pfilled };
+            (pt, ps, ptotal, off, len)
+        } else {
+            match rng.below(10) {
+                0..=5 => { let l = rng.below(30) as u32; (t, seq, l, 0, l) }
+                6 | 7 => { let total = rng.range(2, 60) as u32; (t, seq, total, 0, rng.range(0, total as u64 - 1) as u32) }
+                8 => (t, seq, *rng.pick(&[0xFF_FFFFu32, 0x10000, 70]), *rng.pick(&[0u32, 5]), rng.below(20) as u32),
+                _ => { let l = rng.below(20) as u32; (t, seq, l + 1, 0, l) }
+            }
+        };
+        let Ok(ht) = T::try_from(typ) else { continue };
+        let body = rng.bytes(len as usize);
+        let start = out.len();
+        HandshakeMessage { msg_type: ht, total_length: total, message_seq: seq, fragment_offset: off, fragment_length: len, body: bytes::Bytes::from(body) }.encode(&mut out);
+        let tl = total.to_be_bytes(); out[start + 1..start + 4].copy_from_slice(&tl[1..]);      // encode() writes body.len() as total
+        // harness-side guess of what stays pending (only steers the generator; the comparison does not depend on it)
+        if total != len && seq == exp { if off == 0 && len < total { *pending = Some((typ, seq, total, len)); } else if let Some((a, b, c, f)) = *pending { if off == f { if f + len >= c { *pending = None; exp = exp.wrapping_add(1); } else { *pending = Some((a, b, c, f + len)); } } } }
+        else if total == len && seq == exp { exp = exp.wrapping_add(1); *pending = None; }
+    }
+    if rng.chance(1, 8) { let n = out.len(); out.truncate(rng.below(n as u64 + 1) as usize); }
+    if rng.chance(1, 10) { out.extend_from_slice(&rng.bytes(5)); }
+    out.truncate(60_000);                                   // one record (16-bit length)
+    out.to_vec()
+}
+pub fn run_dtlsctx(run: &mut Run, rng: &mut Rng, is_client: bool, replay: Option<Vec<Vec<u8>>>) {
+    let mut s = Session::new(false, is_client, usize::MAX);
+    s.step(1);
+    let id = s.ends[0].t.verif_instance_id();
+    rustrtc::verif_hooks::decoders::hs_ctx_clear(id);
+    let record_ct = |ct: u8, epoch: u16, payload: &[u8], seq: u64| -> Vec<u8> {
+        let mut r = vec![ct, 254, 253]; r.extend_from_slice(&epoch.to_be_bytes()); r.extend_from_slice(&seq.to_be_bytes()[2..]); r.extend_from_slice(&(payload.len() as u16).to_be_bytes()); r.extend_from_slice(payload); r };
+    let record = |payload: &[u8], seq: u64| -> Vec<u8> {
+        let mut r = vec![22u8, 254, 253, 0, 0]; r.extend_from_slice(&seq.to_be_bytes()[2..]); r.extend_from_slice(&(payload.len() as u16).to_be_bytes()); r.extend_from_slice(payload); r };
+    // baseline (the client has already sent its ClientHello: message_seq 1, transcript non-empty)
+    run_inject(run, &mut s, "ctx", 0, &record(&[], 0), false);
+    let Some((mut k, base)) = ctx_wait(id, 0, &s) else { run.count("dtlsctx:no_baseline"); return };
+    let n = replay.as_ref().map_or(rng.range(2, 8) as usize, |r| r.len());
+    let mut payloads = vec![]; let mut outs = vec![];
+    let mut expect = base[0] as u16; let mut pending = None;
+    for i in 0..n {
+        let p = match &replay { Some(r) => r[i].clone(), None => {
+            // a datagram = 1..3 records: handshake payloads, interleaved with CCS / alerts (1 or 2 bytes, never
+            // close_notify) / epoch-0 application data / heartbeat / a protected-epoch record (ends the walk) / garbage
+            let mut d = vec![];
+            for j in 0..rng.range(1, 3) {
+                match rng.below(12) {
+                    0 => d.extend(record_ct(20, 0, &[1], j)), 1 => d.extend(record_ct(21, 0, &[2], j)), 2 => d.extend(record_ct(21, 0, &[2, rng.range(1, 255) as u8], j)),
+                    3 => { let n = rng.below(9) as usize; d.extend(record_ct(23, 0, &rng.bytes(n), j)) } 4 => d.extend(record_ct(24, 0, &[1, 2, 3], j)),
+                    5 => { let n = rng.below(30) as usize; d.extend(record_ct(*rng.pick(&[22u8, 23, 21]), rng.range(1, 3) as u16, &rng.bytes(n), j)) }
+                    6 => { let n = rng.below(16) as usize; d.extend(rng.bytes(n)) }
+                    _ => { let pl = gen_ctx_payload(rng, is_client, expect, &mut pending); d.extend(record_ct(22, 0, &pl, j)) }
+                }
+            }
+            d } };
+        run_inject(run, &mut s, "ctx", 0, &p, false);
+        let Some((k2, v)) = ctx_wait(id, k, &s) else { run.count("dtlsctx:no_snapshot"); return };
+        k = k2; expect = v[0] as u16;
+        outs.push(format!("{},{},{},{},{},{},{}", v[0], v[1], v[2], v[3], v[4] - base[4], v[5], v[6]));
+        payloads.push(p);
+    }
+    let text = format!("{} {} {}", is_client as u8, base[1], payloads.iter().map(|p| hex(p)).collect::<Vec<_>>().join(" "));
+    let out = format!("ok {}", outs.join(" "));
+    exec(run, "dtlsctx", &text, "DtlsTransport::process_handshake_payload", true, None, move || out);
+    rustrtc::verif_hooks::decoders::hs_ctx_clear(id);
+}
+
 pub fn special(run: &mut Run, rng: &mut Rng, thorough: bool) {
     let per = if thorough { 3_000 } else { 150 };
+    for i in 0..(if thorough { 6_000 } else { 400 }) { run_dtlsctx(run, rng, i % 4 == 3, None); }
     hvr_flood(run);
     {
         use rustrtc::transports::dtls::handshake::HandshakeType as T;
@@ -286,6 +376,7 @@ pub fn special(run: &mut Run, rng: &mut Rng, thorough: bool) {
 }
 
 pub fn replay_special(run: &mut Run, stream: &str, a: &[&str]) -> bool {
+    if stream == "dtlsctx" && a.len() >= 2 { let mut rng = Rng::new(1); run_dtlsctx(run, &mut rng, a[0] == "1", Some(a[2..].iter().map(|h| unhex(h)).collect())); return true; }
     if stream != "dtlslive" || a.len() != 3 { return false; }
     let state = a[0]; let i: usize = a[1].parse().unwrap_or(0);
     let mut s = match state {
